@@ -9,5 +9,6 @@ for f in spec/*.tla; do
   (cd spec && java -cp /opt/veriftools/tla/tla2tools.jar:/opt/veriftools/tla/CommunityModules-deps.jar tla2sany.SANY "$(basename "$f")" >/tmp/sany.$$ 2>&1) || { cat /tmp/sany.$$; rm -f /tmp/sany.$$; echo "SANY failed on $f"; exit 1; }
 done
 rm -f /tmp/sany.$$
+tools/selftest_libs.py 3000
 python3 -c "import json; json.load(open('known_findings.json')); json.load(open('MANIFEST.json'))"
 echo "setup ok"
